@@ -12,7 +12,7 @@ w=sys.argv[1]
 always=set(l.strip() for l in open('/tmp/baseline_always_fail.txt'))
 log=open(w+'/SEED/suite.log').read()
 failed=set()
-for m in re.finditer(r'^\s+(FAIL|TIMEOUT|SIGABRT|SIGSEGV|LEAK-FAIL)\s+\[[^\]]*\]\s+(\S+)\s+(\S+)', log, re.M):
+for m in re.finditer(r'^\s+(FAIL|TIMEOUT|SIGABRT|SIGSEGV|LEAK-FAIL)\s+\[[^\]]*\]\s+(?:\([^)]*\)\s+)?(\S+)\s+(\S+)', log, re.M):
     failed.add(m.group(2)+'::'+m.group(3))
 extra=sorted(f for f in failed if f not in always)
 summ=re.findall(r'Summary.*', log)
